@@ -9,10 +9,13 @@ import ObiVerif.Lemmas.DeBruijnHeap
 import ObiVerif.Lemmas.DeBruijnCov
 import ObiVerif.Lemmas.DeBruijnOrder
 import ObiVerif.Lemmas.KmerIndex
+import ObiVerif.Lemmas.KmerIndexLim
+import ObiVerif.Lemmas.DeBruijnRound
+import ObiVerif.Lemmas.DeBruijnRoundTrip
 /-!
 # C19 — exact De Bruijn weights and heaviest path; strand-invariant canonical k-mers (property theorems)
 
-The models are those of the code **as repaired** by the five patches `notes/patches/C19-*.diff`
+The models are those of the code **as repaired** by the six patches `notes/patches/C19-*.diff`
 (the unrepaired behaviours are pinned by the first case lines of the corpus of `harness/c19.go`).
 -/
 namespace ObiVerif.Props.C19
@@ -508,8 +511,8 @@ theorem consensus_cov_spec (g : Graph) (hwf : g.WF) (hne : g.nodes ≠ []) (fuel
 
 /-- no panic for an exact `min_cov = a / 2^s ≤ 1` when `Mode` returns one of the weights of the path (it always
 does on a non-empty path: `mem_modeCands`).  Full statement: for every float `min_cov ≤ 1`; proved here under
-the no-rounding hypothesis of `cov_threshold_exact` (`_partial`: the monotonicity of the two roundings is not
-formalised). -/
+the no-rounding hypothesis of `cov_threshold_exact`; the full statement is `consensus_cov_no_panic` below
+(deepening round 3). -/
 theorem consensus_cov_no_panic_partial (g : Graph) (hwf : g.WF) (hne : g.nodes ≠ []) (fuel : Nat)
     (pick : List Nat → Nat) (p : List Nat) (h : g.heaviestPathH fuel = .path p)
     (hpick : pick (p.map g.weight) ∈ p.map g.weight) (a s : Nat) (ha : 1 ≤ a) (hs : 1 ≤ s) (hle : a ≤ 2 ^ s)
@@ -585,5 +588,251 @@ example : ∃ m, newKmerMap 128 4 false = .ok m ∧
   refine ⟨_, rfl, ?_, ?_⟩
   · rw [query_exact _ _ _ id 2 (by decide) (fun a b _ _ h => h)]; decide
   · rw [query_exact _ _ _ id 2 (by decide) (fun a b _ _ h => h)]; decide
+
+/-! ## deepening round 3
+
+### the float roundings of `min_cov` (`Lemmas/DeBruijnRound.lean`) -/
+
+/-- **Round-to-nearest-even, as modelled by `rnd`, is monotone and never crosses a representable value.**
+For values on a common grid `2^e × ℕ` (`v(q, e') = q × 2^(e'-e)` is the result scaled by `2^-e`):
+`n₁ ≤ n₂ → v(rnd n₁ e) ≤ v(rnd n₂ e)`; if `n ≤ K × 2^d` with `K ≤ 2^53` (a representable value) then
+`v(rnd n e) ≤ K × 2^d`, and symmetrically from above; the exponent never decreases and the significand fits. -/
+theorem rounding_monotone (e : Int) :
+    (∀ n1 n2 : Nat, n1 ≤ n2 →
+      (rnd n1 e).1 * 2 ^ ((rnd n1 e).2 - e).toNat ≤ (rnd n2 e).1 * 2 ^ ((rnd n2 e).2 - e).toNat) ∧
+    (∀ n K d : Nat, K ≤ 2 ^ 53 → n ≤ K * 2 ^ d →
+      e ≤ (rnd n e).2 ∧ (rnd n e).1 * 2 ^ ((rnd n e).2 - e).toNat ≤ K * 2 ^ d) ∧
+    (∀ n K d : Nat, K < 2 ^ 53 → K * 2 ^ d ≤ n → K * 2 ^ d ≤ (rnd n e).1 * 2 ^ ((rnd n e).2 - e).toNat) ∧
+    (∀ n : Nat, (rnd n e).1 ≤ 2 ^ 53) :=
+  ⟨fun n1 n2 h => rnd_mono n1 n2 e h, fun n K d hK h => rnd_le_of_le n K d e hK h,
+   fun n K d hK h => rnd_ge_of_ge n K d e hK h, fun n => rnd_fst_le n e⟩
+
+/-- test (sample input): 2^53 + 1 is a tie and goes to the even 2^52 × 2, 2^53 + 3 goes up to (2^52 + 2) × 2 -/
+example : rnd (2 ^ 53 + 1) 0 = (2 ^ 52, 1) ∧ rnd (2 ^ 53 + 3) 0 = (2 ^ 52 + 2, 1) := by decide
+
+/-- **The float threshold never exceeds the mode**, for **every** positive `float64` `min_cov ≤ 1` (`m × 2^-s`
+with `m ≤ 2^s`; every such float has this form) and every `mode < 2^52`: whatever the roundings of the
+multiplication and of the addition do. -/
+theorem cov_threshold_le_mode (mode m s : Nat) (hmode : mode < 2 ^ 52) (hm : m ≤ 2 ^ s) :
+    covThreshold mode m (-(s : Int)) ≤ mode := covThreshold_le_mode mode m s hmode hm
+
+/-- the bound on the mode is sharp: node weights from `2^52` on are outside the domain.  At `mode = 2^52 + 1` and
+`min_cov = 1`, `float64(mode) + 0.5` is a tie that goes to the even neighbour `mode + 1`: every node is below the
+threshold and `LongestConsensus` panics (the real code agrees: corpus line
+`gc 3 3ff0000000000000 ? 61636774:4503599627370497`). -/
+theorem cov_threshold_above_mode_counterexample : covThreshold (2 ^ 52 + 1) 1 0 = 2 ^ 52 + 2 := covThreshold_above_mode
+
+/-- **No panic, in full**: for every graph, every positive float `min_cov ≤ 1` and every answer of `Mode` that is one
+of the weights of the path (it always is: `mode_cands_spec`) and is below `2^52`, `LongestConsensus(id, min_cov)` does
+not panic.  (This is the full statement `consensus_cov_no_panic_partial` pointed at: no "no-rounding" hypothesis.) -/
+theorem consensus_cov_no_panic (g : Graph) (hwf : g.WF) (hne : g.nodes ≠ []) (fuel : Nat)
+    (pick : List Nat → Nat) (p : List Nat) (h : g.heaviestPathH fuel = .path p)
+    (hpick : pick (p.map g.weight) ∈ p.map g.weight) (hlt : pick (p.map g.weight) < 2 ^ 52)
+    (m s : Nat) (hle : m ≤ 2 ^ s) :
+    g.longestConsensusCov fuel m (-(s : Int)) pick ≠ .panic := by
+  obtain ⟨x, hxp, hxw⟩ := List.mem_map.mp hpick
+  have hmp := cov_threshold_le_mode (pick (p.map g.weight)) m s hlt hle
+  obtain ⟨a', sp, b, _, _, _, _, _, _, e⟩ :=
+    (consensus_cov_spec g hwf hne fuel m (-(s : Int)) pick p h).1 ⟨x, hxp, by rw [hxw]; exact hmp⟩
+  rw [e]; split <;> intro hh <;> cases hh
+
+/-- the hypotheses are satisfiable on a rounded case: `min_cov` = 0.1 = `0x1999999999999a × 2^-56`, mode 5 -/
+example : (0x1999999999999a : Nat) ≤ 2 ^ 56 ∧ (5 : Nat) < 2 ^ 52 ∧ covThreshold 5 0x1999999999999a (-((56 : Nat) : Int)) ≤ 5 := by
+  decide
+
+/-! ### the single-read round trip, both directions (finding `C19-roundtrip-km1-repeat`) -/
+
+/-- **Characterisation of the round trip for the code as it is**: a single read of plain bases (`2 ≤ k ≤ 32`, at
+least `k` bases, count ≥ 1) is returned unchanged by `LongestConsensus` **iff** no window of `k-1` bases occurs
+twice in it.  When one does, the graph has a directed cycle (`x_i → … → x_{j-1} → x_i`), `HasCycle` is true and the
+result is the error "cannot identify optimum path" — for every fuel. -/
+theorem single_read_roundtrip_iff (k : Nat) (hk : 2 ≤ k) (h32 : k ≤ 32) (s : Bytes) (w : Nat) (hw : 1 ≤ w)
+    (hp : ∀ b ∈ s, (plain b).isSome) (hl : k ≤ s.length) (fuel : Nat)
+    (hf : ((makeGraph k).push s w).hpBound ≤ fuel) :
+    (((makeGraph k).push s w).longestConsensus fuel = .seq ((s.map digit).map decode) ↔
+      (windowsAll (k - 1) (s.map digit)).Nodup) ∧
+    (¬ (windowsAll (k - 1) (s.map digit)).Nodup →
+      ((makeGraph k).push s w).Cyclic ∧ ∀ fuel', ((makeGraph k).push s w).longestConsensus fuel' = .err) := by
+  have hcyc : ¬ (windowsAll (k - 1) (s.map digit)).Nodup →
+      ((makeGraph k).push s w).Cyclic ∧ ∀ fuel', ((makeGraph k).push s w).longestConsensus fuel' = .err := by
+    intro hrep
+    have hc := single_read_cyclic_of_repeat k hk h32 s w hw hp hl hrep
+    refine ⟨hc, fun fuel' => ?_⟩
+    unfold Graph.longestConsensus
+    split
+    · rfl
+    · rw [(none_iff_cycle _ fuel').2 hc]
+  refine ⟨⟨fun h => ?_, fun hn => single_read_roundtrip_plain k hk h32 s w hw hp hl hn fuel hf⟩, hcyc⟩
+  apply Classical.byContradiction
+  intro hrep
+  rw [(hcyc hrep).2 fuel] at h
+  cases h
+
+/-- the same over a, c, g, t, the windows being those of the read itself -/
+theorem single_read_roundtrip_iff_acgt (k : Nat) (hk : 2 ≤ k) (h32 : k ≤ 32) (s : Bytes) (w : Nat) (hw : 1 ≤ w)
+    (hs : ∀ b ∈ s, b = 97 ∨ b = 99 ∨ b = 103 ∨ b = 116) (hl : k ≤ s.length) (fuel : Nat)
+    (hf : ((makeGraph k).push s w).hpBound ≤ fuel) :
+    ((makeGraph k).push s w).longestConsensus fuel = .seq s ↔ (windowsAll (k - 1) s).Nodup := by
+  have := (single_read_roundtrip_iff k hk h32 s w hw (plain_acgt s hs) hl fuel hf).1
+  rw [decode_digit_acgt s hs, windows_digit_nodup_iff (k - 1) s hs] at this
+  exact this
+
+/-- both sides occur (test, sample inputs): "acgtcag" (k = 3) has no repeated 2-mer; "acgacg" has (ac, cg) -/
+example : (windowsAll (3 - 1) ([97, 99, 103, 116, 99, 97, 103] : Bytes)).Nodup ∧
+    ¬ (windowsAll (3 - 1) ([97, 99, 103, 97, 99, 103] : Bytes)).Nodup := by decide
+
+/-! ### canonical k-mers when the k-mer fills the word (`2k = W`, fix b11761d) -/
+
+/-- `canon_exact` and `canon_strand_invariant` have exactly two hypotheses, `1 ≤ k` and `2k ≤ W`: the case `2k = W`
+(k = 32 / 64 / 128 on `Uint64` / `Uint128` / `Uint256`, and every other even width) is inside.  Stated on its own:
+dense mode, any even `k ≥ 2`, word of exactly `2k` bits. -/
+theorem canon_full_width (k : Nat) (hk : 1 ≤ k) (he : k % 2 = 0) (s : Bytes) :
+    ∃ m, newKmerMap (2 * k) k false = .ok m ∧ m.kmersize = k ∧
+      normalizedKmerSlice m s = canonSpec k false (s.map plain) ∧
+      normalizedKmerSlice m (rcSeq s) = (normalizedKmerSlice m s).reverse := by
+  have hek : effK k false = k := by
+    unfold effK
+    simp [he]
+  obtain ⟨m, hm, hks, hsp⟩ := canon_exact (2 * k) k false (by rw [hek]; exact hk) (by rw [hek]; exact Nat.le_refl _) s
+  obtain ⟨m', hm', hrev, _⟩ := canon_strand_invariant (2 * k) k false (by rw [hek]; exact hk)
+    (by rw [hek]; exact Nat.le_refl _) s
+  rw [hm] at hm'
+  cases hm'
+  exact ⟨m, hm, by rw [hks, hek], by rw [hsp, hek], hrev⟩
+
+/-- the boundary configurations of the three word types, dense (2k = W) and the largest sparse k (2k = W - 2) -/
+example : effK 32 false = 32 ∧ 2 * effK 32 false = 64 ∧ effK 64 false = 64 ∧ 2 * effK 64 false = 128 ∧
+    effK 128 false = 128 ∧ 2 * effK 128 false = 256 ∧
+    effK 31 true = 31 ∧ 2 * effK 31 true ≤ 64 ∧ effK 63 true = 63 ∧ 2 * effK 63 true ≤ 128 ∧
+    effK 127 true = 127 ∧ 2 * effK 127 true ≤ 256 ∧
+    effK 33 false = 32 ∧ effK 32 true = 33 ∧ ¬ (2 * effK 32 true ≤ 64) := by decide
+
+/-! ### `Push` and the bytes outside the IUPAC table -/
+
+/-- **Each read adds its count once to each distinct reading of each of its windows, up to the first byte that is
+not a nucleotide code** — `push_weights` with the cut made explicit: a read `a ++ [b] ++ c` whose byte `b` has no
+entry in the table `iupac` (and all bytes of `a` have one) counts as the read `a`; whatever follows `b` is ignored,
+and so are the windows that contain `b`. -/
+theorem push_weights_cut (k : Nat) (hk : 1 ≤ k) (h2 : k ≤ 32) (reads : List (Bytes × Nat)) (x : Nat)
+    (cut : Bytes × Nat → Bytes)
+    (hcut : ∀ r ∈ reads, (cut r = r.1 ∧ ∀ b ∈ r.1, iupac b.toNat ≠ []) ∨
+      ∃ b c, r.1 = cut r ++ b :: c ∧ iupac b.toNat = [] ∧ ∀ a ∈ cut r, iupac a.toNat ≠ []) :
+    (reads.foldl (fun g r => g.push r.1 r.2) (makeGraph k)).weight x
+      = (reads.map fun r => r.2 * winCount k x (cut r)).sum := by
+  rw [push_weights k hk h2]
+  congr 1
+  apply List.map_congr_left
+  intro r hr
+  rcases hcut r hr with ⟨e, hv⟩ | ⟨b, c, e, hb, hv⟩
+  · rw [e, validPrefix_of_iupac r.1 hv]
+  · congr 2
+    rw [e]
+    unfold validPrefix
+    rw [List.takeWhile_append_of_pos (by intro a ha; simpa using hv a ha)]
+    simp [hb]
+
+/-- a window whose readings include `x` several times over (they cannot: the readings of a window are distinct
+words) still counts once: `winCount` counts windows, by membership -/
+theorem win_count_by_membership (k x : Nat) (s : Bytes) :
+    winCount k x s = ((windowsAll k s).filter fun win => decide (x ∈ kmerReadings win)).length := by
+  unfold winCount
+  rw [List.countP_eq_length_filter]
+  congr 1
+  apply List.filter_congr
+  intro win _
+  simp
+
+/-- test (sample input): "ac!gt" is cut at '!' (0x21): k = 2 sees the single window ac -/
+example : validPrefix [97, 99, 33, 103, 116] = [97, 99] ∧ winCount 2 1 (validPrefix [97, 99, 33, 103, 116]) = 1 ∧
+    winCount 2 11 (validPrefix [97, 99, 33, 103, 116]) = 0 := by decide
+
+/-! ### which heaviest path is returned on a tie -/
+
+/-- **Tie-breaking is deterministic**: when several walks have the maximal weight, the one `HaviestPath` returns is a
+function of the map word → weight alone — any two association lists holding the same map (i.e. any two iteration
+orders of the Go map, which decide the order of `Heads()` and of the DFS roots) give the same path and the same
+consensus, on the transcription with the binary heap too.  (The queue is ordered by k-mer word, `Nexts` lists the
+successors by last base a < c < g < t and the heaviest node is replaced only by a strictly heavier one: among the
+heaviest end nodes, the first one labelled in that order wins.) -/
+theorem heaviest_tie_break_deterministic (g g' : Graph) (e : g.Equiv g') (hn : g.keys.Nodup) (hn' : g'.keys.Nodup)
+    (fuel : Nat) :
+    g.heaviestPathH fuel = g'.heaviestPathH fuel ∧ g.longestConsensusH fuel = g'.longestConsensusH fuel := by
+  rw [heaviestPathH_eq, heaviestPathH_eq, longestConsensusH_eq, longestConsensusH_eq]
+  exact ⟨heaviestPath_equiv g g' e hn hn' fuel, longestConsensus_equiv g g' e hn hn' fuel⟩
+
+/-- test (sample input): reads "acga" and "acgt" (count 1 each), k = 3: the walks acg → cga and acg → cgt both weigh 3;
+both orders of the reads (two different association lists) return acg → cga (the end node with the smaller word) -/
+example :
+    ((([([97, 99, 103, 97], 1), ([97, 99, 103, 116], 1)] : List (Bytes × Nat)).foldl
+      (fun g r => g.push r.1 r.2) (makeGraph 3)).heaviestPathH 100 = .path [6, 24]) ∧
+    ((([([97, 99, 103, 116], 1), ([97, 99, 103, 97], 1)] : List (Bytes × Nat)).foldl
+      (fun g r => g.push r.1 r.2) (makeGraph 3)).heaviestPathH 100 = .path [6, 24]) := by decide
+
+/-! ### the index with an occurrence limit; `Query` of a sequence that is itself a reference -/
+
+/-- **The index with an occurrence limit `M ≥ 0`, exactly**: the k-mer `x` lists what the unlimited index lists
+(`index_exact`) when it occurs fewer than `M` times in the references (all references together, with
+multiplicity), and nothing otherwise. -/
+theorem index_limited_exact (m : KmerMap) (M : Nat) (refs : List Bytes) (x : Nat) :
+    idxGet (newIndex m (M : Int) refs) x = (if occTotal m refs x < M then refOcc m x 0 refs else []) ∧
+    occTotal m refs x = (refs.map fun s => (normalizedKmerSlice m s).count x).sum :=
+  ⟨idxGet_newIndex_lim m M refs x, occTotal_eq m refs x⟩
+
+/-- **`Query`, exactly, for any query sequence** — fresh (`qid ≥ |refs|`) or itself a reference (`qid < |refs|`:
+`obikmersim --self`) — without occurrence limit: reference `j` is reported iff it is not the query sequence and
+shares a canonical k-mer occurrence with the query; the value is `shared + 1`.  The query sequence is never
+reported (patch `C19-query-self-last`; the unrepaired code reported it iff its address was the largest of the
+matched ones: corpus line `km 64 3 1 4 0 1 ? 6763636361 - 6763636361`).  The result does not depend on `rank`,
+the address order. -/
+theorem query_any_exact (m : KmerMap) (refs : List Bytes) (q : Bytes) (rank : Nat → Nat) (qid : Nat)
+    (hinj : ∀ a b, a < refs.length → b < refs.length → rank a = rank b → a = b) (j : Nat) :
+    (kmQuery m (newIndex m (-1) refs) rank qid q).lookup j =
+      if j < refs.length ∧ j ≠ qid ∧ 0 < shared m refs q j then some (shared m refs q j + 1) else none :=
+  kmQuery_any m refs q rank qid hinj j
+
+/-- **`Query` with an occurrence limit `M ≥ 0`, exactly**, the query being a reference or not: as `query_any_exact`
+with `sharedLim`, the shared occurrences counted over the k-mers that occur fewer than `M` times in the references. -/
+theorem query_limited_exact (m : KmerMap) (M : Nat) (refs : List Bytes) (q : Bytes) (rank : Nat → Nat) (qid : Nat)
+    (hinj : ∀ a b, a < refs.length → b < refs.length → rank a = rank b → a = b) (j : Nat) :
+    (kmQuery m (newIndex m (M : Int) refs) rank qid q).lookup j =
+      if j < refs.length ∧ j ≠ qid ∧ 0 < sharedLim m M refs q j then some (sharedLim m M refs q j + 1) else none :=
+  kmQuery_lim m M refs q rank qid hinj j
+
+/-- **Strand invariance of `Query`, limit or not, query a reference or not**: in the domain of `canon_exact` the
+reverse complement of the query (looked up under the same identity) gets the same answer. -/
+theorem query_strand_invariant_any (W k0 : Nat) (sparse : Bool) (h1 : 1 ≤ effK k0 sparse) (h2 : 2 * effK k0 sparse ≤ W)
+    (refs : List Bytes) (q : Bytes) (rank : Nat → Nat) (qid : Nat)
+    (hinj : ∀ a b, a < refs.length → b < refs.length → rank a = rank b → a = b) :
+    ∃ m, newKmerMap W k0 sparse = .ok m ∧ ∀ j,
+      ((kmQuery m (newIndex m (-1) refs) rank qid (rcSeq q)).lookup j =
+        (kmQuery m (newIndex m (-1) refs) rank qid q).lookup j) ∧
+      ∀ M : Nat, (kmQuery m (newIndex m (M : Int) refs) rank qid (rcSeq q)).lookup j =
+        (kmQuery m (newIndex m (M : Int) refs) rank qid q).lookup j := by
+  obtain ⟨m, hm, _, hperm⟩ := canon_strand_invariant W k0 sparse h1 h2 q
+  refine ⟨m, hm, fun j => ⟨?_, fun M => ?_⟩⟩
+  · rw [kmQuery_any m refs _ rank qid hinj, kmQuery_any m refs _ rank qid hinj, shared_perm m refs q (rcSeq q) j hperm]
+  · rw [kmQuery_lim m M refs _ rank qid hinj, kmQuery_lim m M refs _ rank qid hinj,
+      sharedLim_perm m M refs q (rcSeq q) j hperm]
+
+/-- non-vacuity (sample input): references "acgtacgt", "acgtgg", "acgt", the query being reference 2, k = 4 dense
+on 128-bit words: references 0 and 1 are reported (3 and 2), the query itself is not; with the limit 4 the k-mer
+acgt (4 occurrences in the references) is dropped and nothing is reported; with the limit 5 it is kept -/
+example : ∃ m, newKmerMap 128 4 false = .ok m ∧
+    (let refs : List Bytes := [[97, 99, 103, 116, 97, 99, 103, 116], [97, 99, 103, 116, 103, 103], [97, 99, 103, 116]]
+     let q : Bytes := [97, 99, 103, 116]
+     (kmQuery m (newIndex m (-1) refs) id 2 q).lookup 0 = some 3 ∧ (kmQuery m (newIndex m (-1) refs) id 2 q).lookup 1 = some 2 ∧
+     (kmQuery m (newIndex m (-1) refs) id 2 q).lookup 2 = none ∧
+     (kmQuery m (newIndex m ((4 : Nat) : Int) refs) id 2 q).lookup 0 = none ∧
+     (kmQuery m (newIndex m ((5 : Nat) : Int) refs) id 2 q).lookup 0 = some 3 ∧
+     (kmQuery m (newIndex m ((5 : Nat) : Int) refs) id 2 q).lookup 2 = none) := by
+  refine ⟨_, rfl, ?_⟩
+  intro refs q
+  refine ⟨?_, ?_, ?_, ?_, ?_, ?_⟩
+  · rw [query_any_exact _ _ _ id 2 (fun a b _ _ h => h)]; decide
+  · rw [query_any_exact _ _ _ id 2 (fun a b _ _ h => h)]; decide
+  · rw [query_any_exact _ _ _ id 2 (fun a b _ _ h => h)]; decide
+  · rw [query_limited_exact _ _ _ _ id 2 (fun a b _ _ h => h)]; decide
+  · rw [query_limited_exact _ _ _ _ id 2 (fun a b _ _ h => h)]; decide
+  · rw [query_limited_exact _ _ _ _ id 2 (fun a b _ _ h => h)]; decide
 
 end ObiVerif.Props.C19
